@@ -138,6 +138,15 @@ CHECKS['C11'] = dict(
    note='Horizon K <= 12 quick / 40 thorough integration steps; carriers A (two winds), B, C [thorough + more]. Interpolation compared over the reals (identical terms). For shots outside the carrier list the statement follows from C03.filter + C01.step (the step never reads the filter).',
    ref='3/C11')
 
+CHECKS['C18'] = dict(
+   text='Config: create_interface_config / Calculator on subsets of the 8 settings with symbolic values (given terms used, documented defaults, locality of two calculators), the global default-step setter over all op sequences (set / reset / create / set non-positive) with symbolic values. '
+        'Names: every enum name and alias as a SYMBOLIC structured string (blanks, any letter case per character; value strings with a symbolic number prefix constrained by the code\'s own number pattern in z3\'s regex theory) through the real _parse_unit / PreferredUnits.set / _parse_value; '
+        'unknown names: a symbolic string forked against every known key by z3 string equality queries - none selected.',
+   note='That settings GOVERN the computation is decided on symbolic Config values where they are used: C01.step (air advance <= max_step/2, gravity), C04.reason (limits), C02.loop (accuracy, cap). Strings: blanks{0,2}, ASCII case mapping only (full Unicode lower() outside), '
+        'numbers <= 6 chars; strip/lower are modelled structurally on the parts of the symbolic string (a case variant of x lowers to x) - the model is validated by replaying solver-chosen spellings natively. TOML reading (tomllib) outside: the loader hands the strings to PreferredUnits.set. '
+        'Quick: enum names + first alias per unit; thorough: all ~200 spellings; unknown strings of 1..3 / 1..5 characters.',
+   ref='3/C18')
+
 NOT_YET = {}
 
 def main():
